@@ -263,8 +263,10 @@ class C12(base.Engine):
         st['place'] = case.get('place')
         st['names'] = case['names']
         if problems:
+            kinds = sorted({b[0] for _, d in problems for b in d['bad']})
             return {'verdict': 'violation', 'sig': problems[0][0],
-                    'detail': {'problems': [[s, d] for s, d in problems[:3]], 'n': len(problems)}, 'stats': st}
+                    'detail': {'problems': [[s, d] for s, d in problems[:3]], 'n': len(problems),
+                               'other_kinds': [k for k in kinds if k != 'host_path']}, 'stats': st}
         return {'verdict': 'ok', 'stats': st}
 
     def run(self, tier, seed, budget_s):
@@ -291,6 +293,40 @@ class C12(base.Engine):
         if r['verdict'] != 'violation':
             return c, self.execute(c)
         return mc, r
+
+    def known_match(self, case, result, known):
+        """listed finding C12-interpreter-env-third-party-finder: under InterpreterEnvironment the lookup of a
+        module runs the finders that the host's own packages put on sys.meta_path inside the host; what THEIR
+        code does to the host (setuptools' distutils shim imports setuptools, which appends its vendor
+        directory to sys.path) shows as a changed host sys.path.  Matched only if every anomaly of the case is
+        a host sys.path that GAINED entries outside the scratch root and lost none, the session runs on
+        InterpreterEnvironment and the Script of the op imports `distutils`."""
+        listed = [k for k in known['findings'] if k.get('id') == 'C12-interpreter-env-third-party-finder']
+        probs = (result.get('detail') or {}).get('problems') or []
+        if not listed or not probs or case.get('env') != 'interpreter':
+            return None
+        codes = {}
+        for op in case['ops']:
+            if op['op'] == 'script':
+                codes[op['sid']] = op.get('code') or ''
+        # anomalies are sticky (the entry stays): every op after the first one reports it again, so the
+        # whole event list is judged, not just the first three problems kept in the detail
+        if (result.get('detail') or {}).get('n', 0) > 0:
+            first = probs[0][1]
+            sid = (first.get('opdesc') or {}).get('sid')
+            if 'import distutils' not in codes.get(sid, ''):
+                return None
+        for sig, d in probs:
+            for b in d.get('bad') or []:
+                if b[0] != 'host_path' or not isinstance(b[1], dict):
+                    return None
+                if b[1].get('removed') or not b[1].get('added'):
+                    return None
+                if any(str(x).startswith('<root>') or x == '' or not str(x).startswith('/') for x in b[1]['added']):
+                    return None
+        if (result.get('detail') or {}).get('other_kinds'):
+            return None
+        return listed[0]
 
     def coverage(self, pairs, tier):
         ev = 0
